@@ -20,6 +20,9 @@ TAG_MENU = [
     "ff:f:1.0e2", "ff:f:.5", "ff:f:-3", "zz:Z:a b", "zz:Z:x:y:z",
     'jj:J:{"a" : [1 ]}', 'jj:J:[1,{"k":null},"s"]', "hh:H:1AF0",
     "bb:B:c,-1,2", "bb:B:I,1,2", "bb:B:f,1.5,2e3", "bb:B:C,255",
+    "bb:B:s,-1,128", "bb:B:i,-1,32768", "bb:B:c,-128,127", "bb:B:S,256",
+    "bb:B:I,65536", "bb:B:s,-129,0", "bb:B:i,-32769,1", "bb:B:i,-1,2147483647",
+    "zz:Z:trailing blanks  ", "zz:Z: ", "hh:H:00FF",
 ]
 
 GFA1_SEG = {"A": T(["S", "A", "ACGT"]), "B": T(["S", "B", "*", "LN:i:5"]),
@@ -323,7 +326,11 @@ def work(chunk):
   return res
 
 
-def tag_documents():
+CORE_MENU = ["aa:A:x", "ii:i:+5", "ff:f:.5", "zz:Z:a b", 'jj:J:{"a" : [1 ]}',
+             "hh:H:1AF0", "bb:B:I,1,2", "bb:B:s,-1,128", "zz:Z:trailing blanks  "]
+
+
+def tag_documents(all_pairs=True):
   docs = []
   for version, table in (("gfa1", GFA1_T), ("gfa2", GFA2_T)):
     reps = {}
@@ -342,6 +349,8 @@ def tag_documents():
         docs.append(("tags:" + rt, version, base[:-1] + [line + "\t" + t]))
       for t1, t2 in itertools.combinations(menu, 2):
         if t1[:2] == t2[:2]:
+          continue
+        if not all_pairs and not (t1 in CORE_MENU and t2 in CORE_MENU):
           continue
         docs.append(("tags:" + rt, version,
                      base[:-1] + [line + "\t" + t1 + "\t" + t2]))
@@ -386,6 +395,7 @@ def special_documents():
                                 T(["H", "hh:H:2B"]), T(["H", "ff:f:2"])]))
     docs.append(("empty", v, []))
     docs.append(("comments", v, ["# one", "#two", "#\tthree", "#"]))
+    docs.append(("comments", v, ["# trailing blanks  ", "#  ", "# x\t"]))
   docs.append(("multiline-group", "gfa2",
                [GFA2_SEG["a"], GFA2_SEG["b"], GFA2_SEG["c"],
                 T(["U", "u1", "a b"]), T(["U", "u1", "c"])]))
@@ -435,7 +445,7 @@ def run(ctx):
       "independent tokenizer gfamc/ref/grammar.py anchored on {} lines of "
       "tests/testdata".format(n)]
   maxn = 3 if ctx.quick else 4
-  docs = tag_documents() + subset_documents(maxn) + special_documents()
+  docs = tag_documents(all_pairs=not ctx.quick) + subset_documents(maxn) + special_documents()
   ctx.bound_completed = {"subset_size": maxn, "documents": len(docs),
                          "configs_per_document": len(CONFIGS)}
   found_all = {}
